@@ -830,7 +830,9 @@ class _FastUnmarshaller:
             if PYTHON3:
                 c = chr(c)
             self.bufpos += 1
-            return _load_dispatch[c](self)
+            # self.dispatch is normally the class-level table (_load_dispatch); an
+            # instance may carry its own copy with a replaced reader.
+            return self.dispatch[c](self)
         except KeyError:
             exception = ValueError(
                 "bad marshal code at position %d: %c" % (self.bufpos - 1, c)
